@@ -174,8 +174,17 @@ Theorem C02_t_zero : forall dts, nth 0 (times RO dts) 0 = 0.
 Proof. exact times_nth_0. Qed.
 Theorem C02_t_nondecreasing : forall dts, (forall g, (g < length dts)%nat -> 0 <= nth g dts 0) -> nondecr (times RO dts).
 Proof. exact times_nondecr. Qed.
-Theorem C02_tau_branches_agree : forall dts, tau_of_t RO dts = tau_of_dt RO dts.
+(* tau = t[-1] (the getter since /repo f6ab3ac) is the sum of the durations *)
+Theorem C02_tau_is_sum : forall cached dts, t_consistent cached dts -> tau_get RO cached dts = sumlist RO dts.
+Proof. exact tau_get_sum. Qed.
+(* remark on the code before f6ab3ac (two-branch getter: t[-1] if _t is cached, else dt.sum()): over the reals the
+   two branches agreed and gave the present value; in floating point they differed by ulps (former finding
+   c02-tau-exceeds-t-last, repaired) *)
+Theorem C02_tau_prefix_branches_agree : forall dts, tau_of_t RO dts = tau_of_dt RO dts.
 Proof. exact tau_branches_agree. Qed.
+Theorem C02_tau_prefix_agrees : forall cached dts, t_consistent cached dts ->
+  tau_get_prefix RO cached dts = tau_get RO cached dts.
+Proof. exact tau_prefix_agrees. Qed.
 Theorem C02_t_concat : forall a b,
   times RO (a ++ b) = times RO a ++ map (fun x => tau_of_dt RO a + x) (tl (times RO b)).
 Proof. exact times_app. Qed.
